@@ -1,34 +1,45 @@
-#!/usr/bin/env python3
-"""Run checks against every seeded change (applied to a scratch worktree, never to /repo).
-usage: run_seeds.py [PROP ...]   -> table: seed, own-property exit code, which other checks fire"""
-import json, os, subprocess, sys
-WT = '/tmp/wt/verify'
-def sh(cmd, cwd=None):
-    r = subprocess.run(cmd, shell=True, cwd=cwd, capture_output=True, text=True)
-    return r.returncode, (r.stdout + r.stderr)
-if not os.path.isdir(WT):
-    sh(f'git -C /repo worktree add -q --detach {WT} HEAD')
-sh('git checkout -q --detach $(git -C /repo rev-parse HEAD) && git checkout -q -- . && git clean -fdq', WT)
-only = sys.argv[1:]
-built = sorted(f[:-3].upper() for f in os.listdir('/verif/rules') if f.startswith('c') and f[1:3].isdigit())
-res = {}
-items = [(sd, [sd.split('-')[0]], f'/verif/seeded/{sd}/patch.diff') for sd in sorted(os.listdir('/verif/seeded'))]
-for rd in sorted(os.listdir('/verif/regressions')):
-    items.append((rd, json.load(open(f'/verif/regressions/{rd}/meta.json'))['properties'], f'/verif/regressions/{rd}/patch.diff'))
-for sd, pids, patch in items:
-    pid = pids[0]
-    if only and not (set(pids) & set(only)) and sd not in only: continue
-    sh('git checkout -q -- . && git clean -fdq', WT)
-    rc, out = sh(f'git apply {patch}', WT)
-    if rc: print(sd, 'apply failed', out); continue
+#!/venv/bin/python
+"""Run the rules of every property against every seeded change / regression, each applied to its own scratch
+copy of /repo/desper (never to /repo).   usage: run_seeds.py [--matrix] [PROP|SEED ...]
+Prints: seed, exit-like outcome of its own property(ies), other properties that fire.
+--matrix additionally writes seeded/DETECTION.json (which checks report a violation for which change)."""
+import json, os, sys
+sys.path.insert(0, os.path.dirname(os.path.dirname(os.path.abspath(__file__))))
+sys.dont_write_bytecode = True
+from concurrent.futures import ProcessPoolExecutor
+from selftest import runner
+
+V = '/verif'
+def items():
+    out = [(sd, [sd.split('-')[0]], f'{V}/seeded/{sd}/patch.diff') for sd in sorted(os.listdir(f'{V}/seeded')) if os.path.isdir(f'{V}/seeded/{sd}')]
+    for rd in sorted(os.listdir(f'{V}/regressions')):
+        out.append((rd, json.load(open(f'{V}/regressions/{rd}/meta.json'))['properties'], f'{V}/regressions/{rd}/patch.diff'))
+    return out
+PROPS = sorted(f[:-3].upper() for f in os.listdir(f'{V}/rules') if f.startswith('c') and f[1:3].isdigit())
+
+def work(job):
+    name, pids, patch, props = job
     row = {}
-    for p in built:
-        if p != pid and '--all' not in os.environ.get('SEEDS_MODE', '--all'): continue
-        rc, out = sh(f'VERIF_EVIDENCE_DIR=/tmp/seed_evidence /verif/check {p} --repo {WT}', '/verif')
-        row[p] = rc
-    own = ','.join(str(row.get(p, '-')) for p in pids)
-    others = [f'{p}:{c}' for p, c in row.items() if p not in pids and c != 0]
-    print(f'{sd:8s} own={own} others={",".join(others) or "-"}')
-    res[sd] = row
-sh('git checkout -q -- . && git clean -fdq', WT)
-json.dump(res, open('/tmp/seed_results.json', 'w'), indent=1)
+    for p in props:
+        n, k, outcome, info = runner._run_variant((p, '/repo', 'B', name, patch))
+        row[p] = {'violation': 1, 'inconclusive': 2, 'silent': 0, 'skipped': 'skip'}[outcome]
+    return name, pids, row
+
+if __name__ == '__main__':
+    args = [a for a in sys.argv[1:] if not a.startswith('--')]
+    matrix = '--matrix' in sys.argv
+    own_only = '--own' in sys.argv
+    jobs = []
+    for name, pids, patch in items():
+        if args and not (set(pids) & set(args)) and name not in args: continue
+        jobs.append((name, pids, patch, pids if own_only else PROPS))
+    res = {}
+    with ProcessPoolExecutor(16) as ex:
+        for name, pids, row in ex.map(work, jobs):
+            own = ','.join(str(row.get(p, '-')) for p in pids)
+            others = [f'{p}:{c}' for p, c in row.items() if p not in pids and c not in (0,)]
+            print(f'{name:8s} own={own} others={",".join(others) or "-"}', flush=True)
+            res[name] = row
+    if matrix:
+        det = {n: sorted(p for p, c in row.items() if c == 1) for n, row in res.items()}
+        json.dump(det, open(f'{V}/seeded/DETECTION.json', 'w'), indent=1, sort_keys=True)
